@@ -30,6 +30,7 @@ func c04(c *Ctx) {
 	r.Decides("in strict mode (once-satisfied exemption aside) Unreserve and AfterPostFilter reject the whole gang group before returning")
 	r.Decides("the four member maps of a gang are accessed only under the gang lock")
 	r.Decides("the once-satisfied exemption from rejection applies to the once-satisfied match policy only; every PodGroup add/update event re-initialises the gang from the new object")
+	r.Decides("the gang-group records (which carry the irreversible once-satisfied flag) are created, looked up and deleted under the gang GROUP id, never under a single gang's id")
 	r.Declines("the counting itself (at least minMember members) and interleavings across several plugin calls")
 
 	// ---- PARTITION
@@ -88,6 +89,7 @@ func c04(c *Ctx) {
 	// ---- strict mode reject
 	c04strict(c)
 	c04podgroup(c)
+	c04groupKey(c)
 
 	// ---- LOCK
 	r.Rule("LOCK: Gang.{Children,PendingChildren,WaitingForBindChildren,BoundChildren} are read under Gang.lock and written under the write lock")
@@ -453,4 +455,40 @@ func c04strict(c *Ctx) {
 		r.Check(len(bad) == 0, "PATH", key+"/other-match-policies", c.InstrPos(start2), "with a match policy other than once-satisfied a strict gang is rejected whether or not it was satisfied before",
 			"in strict mode with a match policy other than once-satisfied a return is reachable without rejecting the gang group, at "+strings.Join(bad, ","))
 	}
+}
+
+// c04groupKey: the once-satisfied flag lives in a record keyed by the gang group id.
+func c04groupKey(c *Ctx) {
+	r := c.R
+	r.Rule("KEY-ROLE(gang group): every call of GangCache.getGangGroupInfo / deleteGangGroupInfo passes a key that derives from util.GetGangGroupId(..) or from a GangGroupId field (the id of the whole group); a gang's own id is a different string as soon as the group has two gangs, and a record deleted or looked up under it leaks the once-satisfied flag to a re-created group")
+	n := 0
+	for _, fn := range c.PkgFuncs(gangCorePkg) {
+		for _, cl := range an.Calls(fn, false) {
+			sn := an.ShortCallee(cl.Common())
+			if sn != "getGangGroupInfo" && sn != "deleteGangGroupInfo" {
+				continue
+			}
+			n++
+			key := cl.Common().Args[1]
+			ok := false
+			for x := range backwardAll(key) {
+				switch y := x.(type) {
+				case *ssa.Call:
+					if an.ShortCallee(&y.Call) == "GetGangGroupId" {
+						ok = true
+					}
+				case *ssa.FieldAddr:
+					if fieldNameOf(y) == "GangGroupId" {
+						ok = true
+					}
+				case *ssa.Field:
+					if _, f, _, isF := an.FieldOf(y); isF && f == "GangGroupId" {
+						ok = true
+					}
+				}
+			}
+			r.Check(ok, "KEY-ROLE", sprintf("%s/%s#%d", fkey(fn), sn, n), c.InstrPos(cl), "keyed by the gang group id", "the gang-group record is addressed with "+an.Path(key)+", which is not a gang group id")
+		}
+	}
+	r.Floor("KEY-ROLE", "gang-group record accesses", n, 5)
 }
